@@ -37,6 +37,15 @@ CHECKS = {
         "Trusted: span = first..last covered variant as the statement defines it; the recording subclass delegates to the real CovMonitor.",
         "DESIGN.md §3 C07",
     ),
+    "C12": (
+        "reference-model monitor (own text-level counter) + identity and interval monitors over the report files + icontract "
+        "post-condition hooked on PhasingStats.get_nonoverlapping_blocks, on generated hostile VCFs",
+        "Thousands of generated VCFs with interleaved/nested phase sets and every genotype shape are run through the real stats "
+        "command with all option combinations; every additive column, the block list, the non-overlap of the length pieces and the "
+        "ALL row are judged per run.",
+        "Trusted: own VCF text parser/decoders; definitions of 'variant' and 'heterozygous' as stated in the check's assumptions.",
+        "DESIGN.md §3 C12",
+    ),
     "C13": (
         "offline checkers over output files: textual phase scan + htslib record differ + idempotence monitor on "
         "generated hostile VCFs run through the real unphase (in-process and CLI subprocess)",
